@@ -11,12 +11,15 @@ CLAIMS = {
  'C02': ('K', 'model_checking', "Kernel claim on the single printing choke point: write_escaped/HtmlEscape/needs_html_escaping agree and escape every unsafe string of up to 2 (thorough: 3) arbitrary ASCII bytes exactly once (decoding the output with the entity table returns the input, no raw metacharacter), safe strings are written verbatim, captures are marked safe iff escaping was on when they ended. Provenance through every VM data path is outside the claim.", "bytes < 0x80 only (multi-byte UTF-8 passes through HtmlEscape untouched by construction of its byte test); filters' safety flow not covered"),
  'C03': ('K', 'model_checking', "Two clauses decided on kernels: loop.* attributes equal their arithmetic definition for EVERY position and length (symbolic usize), previtem/nextitem are the neighbours under any interleaving of look-aheads for sequences of 0..=2 (thorough 3) items, LoopState advances by exactly one. The differential statement over all programs is outside the claim.", "composition of codegen/VM not covered; sequences of up to 3 items for the adjacent-item wrapper"),
  'C04': ('K', 'model_checking', "The constant folder's re-implemented operators (and, or, comparisons) equal the VM's semantics for every fixed operand in {none,false,true,'','a'} against ANY i64 and for ANY pair of i64 literals; delegated arithmetic and the not-folded-on-failure clause are in the thorough tier.", "operand alphabet is scalar; lists/maps/filters in constant expressions and Expr::as_const's recursion are outside"),
+ 'C05': ('B', 'translation_validation', "The code generator's output is validated against a balance specification: for every program of a generated family (all chains of <=2 nested scoped constructs x 11 leaves incl. break/continue/recursion, a seeded sample (thorough: all) of depth-3 chains, and every fixture of tests/inputs) z3 decides whether a typing of the emitted instruction stream exists (frame depth + frame kinds, capture depth, auto-escape depth, operand depth per pc, effects extracted from vm/mod.rs). sat = every path of every length restores scope/capture/escape state and never pops a foreign frame or operand; unsat = two conflicting paths, replayed on the real VM before being reported. The recursive-loop-with-else operand leak is a recorded known finding.", "templates outside the family; VM arms are modelled by their extracted effects (conditional effects are treated demonically and replayed); nested evaluations (macro call, include, super) rely on State::with_execution_state, which is not model-checked here"),
+ 'C18': ('B', 'translation_validation', "For every program of a generated single-file family (chains of <=2 nested constructs incl. self-referential set/with/set-block, filter and autoescape arguments, plus a sample of depth 3) the emitted instruction stream is executed symbolically (all branch outcomes free, loops unrolled 2-3x, per-frame bound-name sets as bit-vectors) and z3 decides whether some path reaches a Lookup of a name that no visible frame binds and that the real undeclared_variables() did not report; sat is replayed with a key-recording context on the real engine.", "macros, call blocks and multi-template statements are outside the fragment; nested (a.b) mode precision not checked; loops unrolled, not inductive"),
  'C07': ('K', 'model_checking', "Order/equality(/hash) laws proved per pair of value kinds with fully symbolic payloads (all 64/128-bit integers, all non-NaN floats, 2-byte strings, none/undefined/bool), exact int/float comparison kernels proved against an integer reference for ALL finite f64 x ALL i128/u128. Collection filters (sort/unique/groupby...) rest on these laws plus std's algorithms and are outside; bool-vs-number equality/order disagreement is a recorded known finding.", "pairs not triples in the quick tier; objects, sequences and maps as compared values outside; hash law only where the hash harness finishes (I64, bool, none, strings)"),
  'C08': ('K', 'model_checking', "For every listed pair of integer representations and fully symbolic payloads, + - * // % ** and unary minus return the mathematically exact result (sign+u128 magnitude reference) or an error, an error only when an operand or the result leaves [-2^127, 2^127); Euclidean convention checked against i128::div_euclid/rem_euclid and by multiplication on all i8 pairs; int/float comparison exact at kernel and Value level. Float // and % are outside (SAT does not finish).", "128x128-bit multiplication and U128 additions only in the thorough tier; pow only for exponents 2 and 3; literal lexing trusted"),
  'C09': ('K', 'model_checking', "Index selection of slices equals CPython's PySlice_AdjustIndices for len <= 6 and ANY i64 start/stop/step (forward via get_offset_and_len + the meaning of skip/take/step_by, backward via range_step_backwards), subscripts on strings/bytes follow Python for ANY i64 index. Kind preservation of ops::slice's dispatcher is read, not proved.", "len <= 6; step == i64::MIN only through unsigned_abs at the call sites (read); tuples/lists/iterables share the same two kernels"),
  'C11': ('K', 'model_checking', "One inductive step of the depth accounting from an arbitrary state: depth never exceeds the configured limit (<= 500 for any requested limit), a refused increment leaves the state unchanged. That the limit is low enough for the native stack (engine S, measured costs) is reported separately when that engine is registered.", "push_frame's 6-line wrapper around check_depth is read; native stack consumption is not modelled by CBMC"),
  'C12': ('K', 'model_checking', "The documented matrix cell by cell and monotonicity along Strict >= SemiStrict >= Lenient >= Chainable for the UndefinedBehavior helpers every use site consults, over 4 modes x {undefined, silent undefined, none, false, 0, ''}.", "that each of the ~60 VM/filter sites calls the right helper is a whole-render fact outside the claim"),
  'C13': ('K', 'model_checking', "FuelTracker for EVERY u64 budget and every sequence of up to 5 zero/unit-cost instructions: threshold behaviour, monotone in the budget, consumed+remaining == budget, once out of fuel always out of fuel; charge is 0 or 1 per instruction shape.", "that eval_impl charges each instruction exactly once and that nested evaluations share the tracker is read, not proved"),
+ 'C20': ('K', 'model_checking', "Sequentialised schedules (acquirers are serialised by the cached_env mutex, a request is one atomic step): the first acquire with a symbolic request arriving during the rebuild (issued inside the creator) keeps that request pending and creates exactly once; one acquire from the pre-state 'environment cached' without a request does not call the creator. Re-creation / fast-reload steps (which drop or clear an Environment) only in the thorough tier.", "Kani executes no threads: interleavings finer than the reloader's lock acquisitions (e.g. a requester racing for the notifier lock) are outside; two concurrent acquirers are serialised by the mutex the code holds (read)"),
  'C19': ('K', 'model_checking', "WriteWrapper+Output over a sink that fails (Err(kind) / zero-length write / short writes) at a symbolic call index: delivered bytes are a prefix of the non-failing output, nothing is written after the failure, the failing operation returns Err and the sink's own error is stored; take_err substitutes a WriteFailure (with source) whatever kind the engine error was wrapped into, exactly once; escaped emission over the same Output (C02 harnesses).", "Error::with_source stubbed in the take_err harnesses (Arc<dyn Error> construction does not get through CBMC); that the VM stops issuing writes after an error is read from ok!/ctx_ok! at the two emit sites"),
 }
 NA = {
@@ -25,9 +28,6 @@ NA = {
  'C16': "generic serde Serializer/Deserializer recursion monomorphised per user type plus serde_json/ryu float printing: not encodable within the caps; no isolated kernel states a clause of the property",
 }
 PENDING = {
- 'C05': "engine B (bytecode typing encoder) not registered yet in this commit",
- 'C18': "engine B (bytecode path encoder) not registered yet in this commit",
- 'C20': "autoreload harness not registered yet in this commit",
  'C10': "lexer kernel harnesses not registered yet in this commit",
  'C14': "location kernel harnesses not registered yet in this commit",
  'C17': "safe_join harness does not finish within caps yet (str::split on symbolic bytes); see DESIGN.md",
@@ -61,6 +61,7 @@ def main():
         },
         'engines': [
             {'name': 'K', 'path': '/verif/bin/kanilib.py', 'serves_properties': sorted(k for k, v in CLAIMS.items() if v[0] == 'K'), 'kind_free_text': K},
+            {'name': 'B', 'path': '/verif/bytecode/engine_b.py', 'serves_properties': ['C05', 'C18'], 'kind_free_text': B},
         ],
         'checks': checks,
         'not_applicable': na,
